@@ -307,6 +307,19 @@ impl Prop for C18 {
     }
 
     fn check(c: &Case, obs: &mut Obs) {
+        // history round (core::history_round): the same inputs with `ignore_case` flipped in between
+        if history_round(
+            c,
+            obs,
+            |c| {
+                let mut v = c.clone();
+                v.ignore_case = !v.ignore_case;
+                v
+            },
+            Self::check,
+        ) {
+            return;
+        }
         let aw = words_of(&c.a);
         let bw = words_of(&c.b);
         let ic = c.ignore_case;
